@@ -425,7 +425,7 @@ _run_clauses = run
 def run(prog, rep):
     _run_clauses(prog, rep)
     from plint.wiring import check_zero_init
-    check_zero_init(rep, "C07.2", prog, ['pshm-posix.c', 'pshm-sysv.c'], 2)
+    check_zero_init(rep, "C07.2", prog, ['pshm-posix.c', 'pshm-sysv.c'], 1)
 
 # generic robustness battery: renaming every local/parameter in these files must not change any verdict
 RENAME_LOCALS = ['src/pshm-posix.c']
